@@ -205,7 +205,9 @@ def battery_cases():
     for a in abis:
         for b in abis:
             out.append(("type", f"{a}fn({P}) -> u8", f"{b}fn(i32) -> u8", "battery:fn-abi/unsafety"))
-    refs = ["&{}", "&mut {}", "&'a {}", "&'a mut {}", "&'b {}", "&'static {}", "*const {}", "*mut {}", "[{}]", "[{}; 2]", "[{}; 3]",
+    LP = "'" + PARAM_PREFIX + "1"      # a canonicalised lifetime PARAMETER: it must not generalise any other lifetime (seeded change C17f)
+    refs = ["&{}", "&mut {}", "&'a {}", "&'a mut {}", "&'b {}", "&'static {}", "&" + LP + " {}", "&" + LP + " mut {}", "W1<" + LP + ", {}>", "W1<'static, {}>", "W1<'a, {}>",
+            "dyn Tr<{}> + " + LP, "*const {}", "*mut {}", "[{}]", "[{}; 2]", "[{}; 3]",
             "({},)", "({}, {})", "({})", "Vec<{}>", "Box<{}>", "m::W1<{}>", "::m::W1<{}>", "W1<{}>", "dyn Tr<{}>", "dyn Tr<{}> + Send",
             "dyn Tr<{}> + 'a", "dyn Tr<{}> + 'b", "dyn for<'x> Tr<{}>", "dyn Send + Tr<{}>", "dyn Tr<{}> + Send + Sync", "fn() -> {}", "fn({})", "fn({}, ...)",
             "fn()", "fn() -> ()", "fn() -> ({}, u8)", "fn() -> ({},)", "fn({}) -> ()", "fn({}) -> ({}, {})", "fn(u8)", "fn(u8) -> (u8, u8)", "fn() -> !",
@@ -219,7 +221,8 @@ def battery_cases():
     gids = [f"Kita<{P}> ## {P}", f"Kita<Marker> ## {P}", f"Kita<{P}> ## Marker", "Kita<Marker> ## Marker", f"Kita<{P1}> ## {P}",
             f"Kita<Vec<{P}>> ## {P}", f"Kita<{P}> ## Vec<{P}>", "Kita<Vec<u8>> ## Vec<u8>", "Kita<Vec<u8>> ## u8", "Kita<u8> ## Vec<u8>",
             f"Kita<{P}, {P1}> ## ({P}, {P1})", f"Kita<{P1}, {P}> ## ({P}, {P1})", "Kita<u8, i32> ## (u8, i32)", "Kita<u8, i32> ## (i32, u8)",
-            f"Kita ## {P}", "Kita ## Marker", f"Kita<'a, {P}> ## &'a {P}", "Kita<'b, u8> ## &'a u8", "Kita<'a, u8> ## &'a u8"]
+            f"Kita ## {P}", "Kita ## Marker", f"Kita<'a, {P}> ## &'a {P}", "Kita<'b, u8> ## &'a u8", "Kita<'a, u8> ## &'a u8",
+            f"Kita<{LP}, {P}> ## &{LP} {P}", f"Kita<'static, {P}> ## &'static {P}", "Kita<'static, u8> ## &'static u8", f"Kita ## W1<{LP}, {P}>", f"Kita ## W1<'static, {P}>"]
     for a in gids:
         for b in gids:
             out.append(("gid", a, b, "battery:gid"))
